@@ -431,10 +431,10 @@ theorem n1_setBtsd (v : Option Bytes) (bs : List Blk) : n1 (setBtsd v bs) = n1 b
 
 /-- the container when the transmit chain reaches `_create`: reloaded, defaults applied, fields
     filled, security steps run -/
-def prep (cfg : Cfg) (now : Timestamp) (b : FBundle) : FBundle :=
-  cfg.secStep (fillFields { b with primary := applyPrimary now b.primary })
+def prep (cfg : Cfg) (now : Option Timestamp) (b : FBundle) : FBundle :=
+  cfg.secStep (fillFields { b with primary := applyOpt now b.primary })
 
-theorem sendBundle_ok (cfg : Cfg) (now : Timestamp) (mtu : Option Nat) (b : FBundle)
+theorem sendBundle_ok (cfg : Cfg) (now : Option Timestamp) (mtu : Option Nat) (b : FBundle)
     (h1 : numsOk b = true) (h2 : crcTypesOk b = true) :
     sendBundle cfg now mtu b =
       match create mtu (prep cfg now b) with
@@ -446,7 +446,7 @@ theorem sendBundle_ok (cfg : Cfg) (now : Timestamp) (mtu : Option Nat) (b : FBun
   simp only [h1, h2, Bool.not_true, Bool.or_false, Bool.false_eq_true, if_false]
   split <;> simp_all
 
-theorem sendBundle_bad (cfg : Cfg) (now : Timestamp) (mtu : Option Nat) (b : FBundle)
+theorem sendBundle_bad (cfg : Cfg) (now : Option Timestamp) (mtu : Option Nat) (b : FBundle)
     (h : ¬ (numsOk b = true ∧ crcTypesOk b = true)) : sendBundle cfg now mtu b = ⟨true, none, []⟩ := by
   unfold sendBundle
   split
@@ -464,16 +464,15 @@ theorem applyPrimary_id (now : Timestamp) (p : Primary) (h1 : p.ts.time ≠ 0) (
 /-- Re-entry of a fragment through `send_bundle`: at most one byte string, of the fragment's size. -/
 theorem resend_length (cfg : Cfg) (hsec : cfg.secStep = id)
     (hcrc : ∀ t d, (cfg.crcFn t d).length = crcWidth t) (mtu : Option Nat) (f : FBundle)
-    (hf : Filled f) (ht : f.primary.ts.time ≠ 0) (hl : f.primary.lifetime ≠ 0)
-    (hfr : isFragment f.primary.flags = true) :
+    (hf : Filled f) (hfr : isFragment f.primary.flags = true) :
     ∀ out ∈ resend cfg mtu f, out.length = f.size := by
   intro out hout
   unfold resend at hout
   split at hout
   · by_cases hok : numsOk f = true ∧ crcTypesOk f = true
     · rw [sendBundle_ok _ _ _ _ hok.1 hok.2] at hout
-      have hp : prep cfg cfg.nowRe f = fillFields f := by
-        simp only [prep, hsec, id, applyPrimary_id _ _ ht hl]
+      have hp : prep cfg none f = fillFields f := by
+        simp only [prep, hsec, id, applyOpt]
       rw [hp, create_of_isFragment _ _ (by simpa [fillFields, fillPrimary] using hfr)] at hout
       simp only [Option.toList, List.mem_singleton] at hout
       subst hout
@@ -730,13 +729,13 @@ theorem crcTypesOk_fragAt (m pe : Nat) (pdata : Bytes) (p : Primary) (bs : List 
 
 /-- the re-entry of a fragment hands exactly one byte string to the CL -/
 theorem resend_eq (cfg : Cfg) (hsec : cfg.secStep = id) (hre : cfg.reroute = true) (mtu : Option Nat)
-    (f : FBundle) (hn : numsOk f = true) (hc : crcTypesOk f = true) (ht : f.primary.ts.time ≠ 0)
-    (hl : f.primary.lifetime ≠ 0) (hfr : isFragment f.primary.flags = true) :
+    (f : FBundle) (hn : numsOk f = true) (hc : crcTypesOk f = true)
+    (hfr : isFragment f.primary.flags = true) :
     resend cfg mtu f = [finalize cfg (fillFields f)] := by
   unfold resend
   rw [if_pos hre, sendBundle_ok _ _ _ _ hn hc]
-  have hp : prep cfg cfg.nowRe f = fillFields f := by
-    simp only [prep, hsec, id, applyPrimary_id _ _ ht hl]
+  have hp : prep cfg none f = fillFields f := by
+    simp only [prep, hsec, id, applyOpt]
   rw [hp, create_of_isFragment _ _ (by simpa [fillFields, fillPrimary] using hfr)]
   rfl
 
